@@ -241,6 +241,9 @@ def export_ir(obj, depth=0, out=None):
     if isinstance(obj, ir.Comment) and not (obj.text or '').strip():
         out.append('BLANK')          # an empty line
         return out
+    if isinstance(obj, ir.CommentBlock) and all(not (c.text or '').strip() for c in obj.comments):
+        out.extend(['BLANK'] * len(obj.comments))      # a run of empty lines
+        return out
     if isinstance(obj, ir.Pragma):
         # the text of a pragma is compared modulo blanks (the backend re-assembles it from its parameters)
         out.append(f'{depth} Pragma keyword={str(obj.keyword).lower()} content=' + _ascii(''.join(str(obj.content or '').split())))
